@@ -52,7 +52,8 @@ class C21(Prop):
     search_budget = {'quick': 3000, 'thorough': 30000}
     rule = ('case kinds: classify (one exception object, possibly chained through __cause__/__context__, through the three real '
             'classifiers), run (a scripted coroutine function raising real exception objects — HTTP errors with response headers: '
-            'Retry-After numeric / date / absent / headers=None — then returning, driven by the real '
+            'Retry-After numeric / date / absent / headers=None; hailtop.httpx errors built by the real constructor from bodies whose marker '
+            'text lies at offset 0 / mid-body / beyond 1 KiB / beyond 64 KiB — then returning, driven by the real '
             'retry_transient_errors / _with_debug_string / _with_delayed_warnings under the virtual-clock loop, random.randrange patched '
             'to draw % n, asyncio.sleep recorded), delay (delay_ms_for_try with arbitrary tries/base/max/draw). Compared with the model: '
             'classifier triple; outcome, number of calls, list of requested sleeps in ms; the delay. non-trivial = a chained or '
@@ -99,8 +100,12 @@ class C21(Prop):
         if c == 'aioCRE':
             e = a.ClientResponseError(self.ri, (), status=sp['status'], message='msg', headers=self._headers(sp.get('ra', 'absent')))
         elif c == 'httpxCRE':
-            e = self.hx.ClientResponseError(self.ri, (), body=BODIES[sp['body']], status=sp['status'], message='msg',
+            # built by the REAL constructor from the intended (status, full body): whatever the constructor does to its arguments
+            # is part of what is exercised; `pad` characters of other text precede the marker text
+            body = 'x' * sp.get('pad', 0) + BODIES[sp['body']]
+            e = self.hx.ClientResponseError(self.ri, (), body=body, status=sp['status'], message='msg',
                                             headers=self._headers(sp.get('ra', 'absent')))
+            e._verif_intended_body = body      # harness annotation for the reference classifier (the code never reads it)
         elif c == 'gcp':
             codes = {'quota': ['FOO', 'QUOTA_EXCEEDED'], 'other': ['FOO'], 'none': None}[sp['codes']]
             e = self.gcp.GCPOperationError(400, 'msg', codes, None, {})
@@ -180,11 +185,16 @@ class C21(Prop):
     REF_ERRNOS = {errno.EADDRNOTAVAIL, errno.ETIMEDOUT, errno.ECONNREFUSED, errno.EHOSTUNREACH, errno.ECONNRESET,
                   errno.ENETUNREACH, errno.EPIPE}
 
+    @staticmethod
+    def _intended_body(e):
+        """the response body the exception was built FROM (not what the constructor stored)"""
+        return getattr(e, '_verif_intended_body', e.body)
+
     def ref_limited(self, e):
         if e is None:
             return False
         if isinstance(e, self.hx.ClientResponseError):
-            return e.status == 400 and any(m in e.body for m in RETRY_ONCE_MSGS)
+            return e.status == 400 and any(m in self._intended_body(e) for m in RETRY_ONCE_MSGS)
         if isinstance(e, (ConnectionResetError, ConnectionRefusedError)):
             return True
         return self.ref_limited(e.__cause__)
@@ -192,7 +202,8 @@ class C21(Prop):
     def ref_rate_limit(self, e):
         if isinstance(e, self.aiohttp.ClientResponseError) and e.status == 429:
             return True
-        return isinstance(e, self.hx.ClientResponseError) and (e.status == 429 or (e.status == 403 and 'rateLimitExceeded' in e.body))
+        return isinstance(e, self.hx.ClientResponseError) and (e.status == 429 or (e.status == 403
+                                                                                    and 'rateLimitExceeded' in self._intended_body(e)))
 
     def ref_transient(self, e):
         a = self.aiohttp
@@ -203,7 +214,7 @@ class C21(Prop):
         if isinstance(e, self.gcp.GCPOperationError) and e.error_codes is not None and 'QUOTA_EXCEEDED' in e.error_codes:
             return True
         if isinstance(e, self.hx.ClientResponseError) and (e.status in self.REF_STATUSES
-                                                            or (e.status == 403 and 'rateLimitExceeded' in e.body)):
+                                                            or (e.status == 403 and 'rateLimitExceeded' in self._intended_body(e))):
             return True
         if isinstance(e, (a.ServerTimeoutError, a.ServerDisconnectedError, asyncio.TimeoutError)):
             return True
@@ -238,6 +249,9 @@ class C21(Prop):
             for ra in ('none', 'date', 1, 45, 300, 86400):
                 out.append({'c': 'aioCRE', 'status': s_, 'ra': ra})
                 out.append({'c': 'httpxCRE', 'status': s_, 'body': 'rl' if s_ == 403 else 'none', 'ra': ra})
+        for pad in (500, 1000, 1024, 2000, 70000):       # the marker text in the middle of / beyond 1 KiB / beyond 64 KiB of body
+            for s_, body in ((403, 'rl'), (400, 'ro'), (400, 'ro2'), (403, 'both'), (429, 'none'), (404, 'rl')):
+                out.append({'c': 'httpxCRE', 'status': s_, 'body': body, 'pad': pad})
         out += [{'c': 'gcp', 'codes': k} for k in ('quota', 'other', 'none')]
         out += [{'c': k} for k in ('srvTimeout', 'srvDisc', 'timeout', 'sockTimeout', 'transient', 'value', 'runtime', 'key', 'cancelled')]
         out += [{'c': 'payload', 'msg': m} for m in ('incomplete', 'other')]
